@@ -1,8 +1,8 @@
 (* line protocol (one request per line, s-expressions of integers):
-   D <blocks>   -> JSON of `denote`              blocks: (10 k inl..) (11 (inl..)..) (12 ((p..) inl..)..) (13 ((hdr inl..)..)..) (14 (inl..)..)
+   D <blocks>   -> JSON of `denote`              blocks: (10 k inl..) (11 (inl..)..) (12 ((p..) (inl..) [(inl..)])..) (13 ((hdr inl..)..)..) (14 (inl..)..)
                                                  inl: (0 w) (1 inl..) (2 inl..) (3 t inl..) (4 u inl..) (5 inl..)
    S <items>    -> "<parse_sections> # <nest>"   items: (1 k c) heading, (0 x) block; output as s-expressions
-   L <lines>    -> JSON of den_list              lines: ((p..) w) *)
+   L <lines>    -> JSON of den_list              lines: ((p..) w) | ((p..) w d)   (d = word after the colon) *)
 open C02_model
 type sx = I of int | L of sx list
 let rec pos_of_int i = if i = 1 then XH else if i land 1 = 1 then XI (pos_of_int (i lsr 1)) else XO (pos_of_int (i lsr 1))
@@ -42,7 +42,10 @@ let inls = function L r -> List.map inl_of r | _ -> failwith "inls"
 let block_of = function
   | L (I 10 :: I k :: r) -> BH (nat_of_int k, List.map inl_of r)
   | L (I 11 :: r) -> BP (List.map inls r)
-  | L (I 12 :: r) -> BList (List.map (function L (L p :: r) -> (List.map (function I c -> n_of_int c | _ -> failwith "p") p, List.map inl_of r) | _ -> failwith "line") r)
+  | L (I 12 :: r) -> BList (List.map (function
+      | L [L p; L t] -> ((List.map (function I c -> n_of_int c | _ -> failwith "p") p, List.map inl_of t), None)
+      | L [L p; L t; L d] -> ((List.map (function I c -> n_of_int c | _ -> failwith "p") p, List.map inl_of t), Some (List.map inl_of d))
+      | _ -> failwith "line") r)
   | L (I 13 :: r) -> BTable (List.map (function L cells -> List.map (function L (I h :: r) -> (h = 1, List.map inl_of r) | _ -> failwith "cell") cells | _ -> failwith "row") r)
   | L (I 14 :: r) -> BPre (List.map inls r)
   | _ -> failwith "block"
@@ -70,7 +73,11 @@ let () =
        let show l = String.concat " " (List.map stree_sx l) in
        print_string (show (parse_sections items) ^ " # " ^ show (nest items) ^ "\n")
      | 'L' ->
-       let lines = List.map (function L [L p; I w] -> (List.map (function I c -> n_of_int c | _ -> failwith "p") p, [Leaf (n_of_int w, false, false)]) | _ -> failwith "line") sx in
+       let pre p = List.map (function I c -> n_of_int c | _ -> failwith "p") p in
+       let lines = List.map (function
+         | L [L p; I w] -> ((pre p, [Leaf (n_of_int w, false, false)]), None)
+         | L [L p; I w; I d] -> ((pre p, [Leaf (n_of_int w, false, false)]), Some [Leaf (n_of_int d, false, false)])
+         | _ -> failwith "line") sx in
        print_string (trees_json (den_list (line_fuel lines) lines) ^ "\n")
      | _ -> print_string "ERR\n"
      with Failure m -> print_string ("ERR " ^ m ^ "\n"))
